@@ -8,9 +8,11 @@ PROPERTY = "C14"
 TRACE = "T_Segment"
 ENUM = {
     "quick":    [dict(module="MC_Segment", cfg="MC_Segment_quick.cfg", workers=8)],
-    "thorough": [dict(module="MC_Segment", cfg="MC_Segment_thorough.cfg", workers=16, coverage=True)],
+    "thorough": [dict(module="MC_Segment", cfg="MC_Segment_thorough.cfg", workers=16, coverage=True,
+                     may_be_unused=["BrkS"])],  # with the ceil bound the start>=end break is unreachable in exact arithmetic (float guard only)
 }
 POOL = 12
+PROOFS = ["proofs/P_Segment.tla"]     # thorough tier: the laws for all integers, discharged by tlapm
 UNITS = [1.0, 0.5, 0.25, 0.125]
 RULE = ("every (clip start, length, duration, hop|default, include_incomplete) of the TLA+ enumeration, run at four exact "
         "units, twice; non-trivial = valid arguments and at least one window is required")
